@@ -1,6 +1,7 @@
 import Dmn.Lemmas.ModelBuild
 import Dmn.Lemmas.XmlMandatory
 import Dmn.Lemmas.XmlTable
+import Dmn.Lemmas.ModelEvalCost
 
 /-!
 # C12 — loading any model text yields a usable model or an error, never a crash (proof part)
@@ -413,6 +414,56 @@ example : ReqDfs.checkVisits (reqsOf (diamondDefs 3)) (allIds (diamondDefs 3)) (
     ReqDfs.dfsExpansions (reqsOf (diamondDefs 3)) (allIds (diamondDefs 3)) = 6 := by decide +kernel
 
 example : reqCheck (diamondDefs 3) = true ∧ reqCheckChains (diamondDefs 3) = true ∧ build (diamondDefs 3) 6 = .ok := by
+  decide +kernel
+
+/-! ## The cost of evaluation: "never … a hang", "never … a stack overflow" (findings F62b, F64)
+
+`eval_terminates` speaks about termination.  The decision closure (`decision.rs:184-193`, model
+`evalDecision`) calls the closure of every required decision once per requirement *edge* and shares
+nothing between the paths of one evaluation; `evalDecisionCalls` counts the calls and
+`evalDecisionDepth` their nesting, by the recursion of `evalDecision` (`Lemmas/ModelEvalCost.lean`).
+The three witnesses are the generators of the scale families of `harness/src/c12.rs`. -/
+
+example : diamondDefs = diamondDecisions := rfl
+
+-- FULL STATEMENT (not provable of the current code, finding F62b-evaluation-exponential):
+--   ∃ c, ∀ d id, build d (bound d) = .ok →
+--     evalDecisionCalls d (nodeCount d) id ≤ c * (number of elements + requirements of d)
+/-- **Evaluation walks every path of the requirement graph**: on the diamond of `2 * layers` decisions
+(which is accepted: `check_chain_linear`) evaluating a top decision calls at least `2 ^ (layers - 1)`
+decision closures, with any fuel that lets it finish — the witness of F62b (20 layers: 0.4 s, 40
+layers: days). -/
+theorem evaluation_exponential_counterexample (layers : Nat) (hl : 1 ≤ layers) (f : Nat) (hf : layers ≤ f + 1) :
+    2 ^ (layers - 1) ≤ evalDecisionCalls (diamondDefs layers) f 0 := by
+  show 2 ^ (layers - 1) ≤ evalDecisionCalls (diamondDecisions layers) f 0
+  rw [diamondDefs_calls layers f 0 (by omega)]
+  exact ReqDfs.diamond_node_visits (layers - 1) layers 0 f (by omega) (by simp; omega) (by omega)
+
+/-- … and the same happens without any diamond when every requirement of a chain is written twice
+(what a pair of "duplicate" faults makes of a chain of `n` decisions): exactly `2 ^ n - 1` calls. -/
+theorem evaluation_duplicated_requirement_counterexample (n : Nat) (hn : 1 ≤ n) (f : Nat) (hf : n ≤ f + 1) :
+    evalDecisionCalls (dupChainDecisions n) f 0 = 2 ^ n - 1 := by
+  have := dupChainDefs_calls n (n - 1) 0 f (by omega) (by omega)
+  rwa [show n - 1 + 1 = n by omega] at this
+
+-- FULL STATEMENT (not provable of the current code, finding F64-eval-depth-chain):
+--   ∃ c, ∀ d id f, build d (bound d) = .ok → evalDecisionDepth d f id ≤ c
+/-- **The closures nest as deep as the longest chain of requirements**: on a chain of `n` decisions
+(accepted, evaluated with `n` calls only) evaluating the first one nests `n` closures — the stack
+needed grows with the model and there is no limit (F64: 8 000 decisions work on 8 MiB, 10 000
+overflow). -/
+theorem evaluation_depth_chain_counterexample (n : Nat) (hn : 1 ≤ n) (f : Nat) (hf : n ≤ f + 1) :
+    evalDecisionDepth (chainDecisions n) f 0 = n ∧ evalDecisionCalls (chainDecisions n) f 0 = n := by
+  have h1 := chainDefs_depth n (n - 1) 0 f (by omega) (by omega)
+  have h2 := chainDefs_calls n (n - 1) 0 f (by omega) (by omega)
+  rw [show n - 1 + 1 = n by omega] at h1 h2
+  exact ⟨h1, h2⟩
+
+/-- The three witnesses are models that load: requirement check and build accept them (here at
+three layers / links; the generators of the harness make them of every size). -/
+example : build (diamondDefs 3) 6 = .ok ∧ build (chainDecisions 3) 3 = .ok ∧ build (dupChainDecisions 3) 3 = .ok ∧
+    evalDecisionCalls (diamondDefs 3) 3 0 = 7 ∧ evalDecisionCalls (dupChainDecisions 3) 3 0 = 7 ∧
+    evalDecisionDepth (chainDecisions 3) 3 0 = 3 ∧ evalDecision (diamondDefs 3) 3 0 = .ok := by
   decide +kernel
 
 end Dmn.MB
